@@ -179,14 +179,18 @@ func DetectAnchoredLiteral(re *syntax.Regexp) *AnchoredLiteralInfo {
 	}
 }
 
-// isStartAnchor returns true if re is a start anchor (^ or \A).
+// isStartAnchor returns true if re anchors the match at the start of the text
+// (\A, or ^ outside multi-line mode). The line anchor (?m)^ does not: the matcher
+// compares the prefix with the first bytes of the input.
 func isStartAnchor(re *syntax.Regexp) bool {
-	return re.Op == syntax.OpBeginText || re.Op == syntax.OpBeginLine
+	return re.Op == syntax.OpBeginText
 }
 
-// isEndAnchor returns true if re is an end anchor ($ or \z).
+// isEndAnchor returns true if re anchors the match at the end of the text
+// (\z, or $ outside multi-line mode). The line anchor (?m)$ does not: the matcher
+// compares the suffix with the last bytes of the input.
 func isEndAnchor(re *syntax.Regexp) bool {
-	return re.Op == syntax.OpEndText || re.Op == syntax.OpEndLine
+	return re.Op == syntax.OpEndText
 }
 
 // isGreedyWildcard returns true if re is .* or .+ (greedy).
